@@ -26,7 +26,7 @@ theorem cmpScaled_eq (x ex y ey : Int) (hx : -1074 ≤ ex) (hy : -1074 ≤ ey) :
   rw [e1, e2, Nat.pow_add, Nat.pow_add, Int.natCast_mul, Int.natCast_mul, ← Int.mul_assoc, ← Int.mul_assoc,
     int_compare_mul _ _ _ (Nat.two_pow_pos _), pow_cast, pow_cast]
 
-def finiteF (b : Nat) : Bool := (f64 b).exp != 2047
+def finiteBits (b : Nat) : Bool := (f64 b).exp != 2047
 
 /-- the exact value of a number in units of `2^-1074` -/
 def erlNumKey : Value → Int
@@ -34,14 +34,14 @@ def erlNumKey : Value → Int
   | .float b => fkey (f64 b)
   | _ => 0
 
-theorem dyadic_eq (b : Nat) (h : finiteF b) : Erl.dyadic b = some ((f64 b).neg, (f64 b).mant, (f64 b).expo) := by
-  simp only [finiteF, bne_iff_ne, ne_eq] at h
+theorem dyadic_eq (b : Nat) (h : finiteBits b) : Erl.dyadic b = some ((f64 b).neg, (f64 b).mant, (f64 b).expo) := by
+  simp only [finiteBits, bne_iff_ne, ne_eq] at h
   unfold Erl.dyadic F64.mant F64.expo
   simp only [f64] at h ⊢
   by_cases h0 : b / 2 ^ 52 % 2048 = 0 <;> simp [h, h0]
 
 theorem numVal_int (i : Int) : Erl.numVal (.int i) = some (i, 0) := rfl
-theorem numVal_float (b : Nat) (h : finiteF b) :
+theorem numVal_float (b : Nat) (h : finiteBits b) :
     Erl.numVal (.float b) = some (if (f64 b).neg then -((f64 b).mant : Int) else (f64 b).mant, (f64 b).expo) := by
   simp [Erl.numVal, dyadic_eq b h]
 
@@ -49,17 +49,17 @@ theorem scaled_int (i : Int) : i * ((2 ^ ((0 : Int) + 1074).toNat : Nat) : Int) 
   have : ((0 : Int) + 1074).toNat = 1074 := by omega
   rw [this]; unfold scaleK; rfl
 
-theorem scaled_float (b : Nat) (h : finiteF b) :
+theorem scaled_float (b : Nat) (h : finiteBits b) :
     (if (f64 b).neg then -((f64 b).mant : Int) else (f64 b).mant) * ((2 ^ ((f64 b).expo + 1074).toNat : Nat) : Int) =
       fkey (f64 b) := by
-  simp only [finiteF, bne_iff_ne, ne_eq] at h
+  simp only [finiteBits, bne_iff_ne, ne_eq] at h
   unfold fkey smVal F64.mag
   rw [if_neg h]
   split <;> simp [Int.neg_mul]
 
 /-- numbers on the spec side compare as their exact keys -/
-theorem cmpNum_key (u v : Value) (hu : (∃ i, u = .int i) ∨ (∃ b, u = .float b ∧ finiteF b))
-    (hv : (∃ i, v = .int i) ∨ (∃ b, v = .float b ∧ finiteF b)) :
+theorem cmpNum_key (u v : Value) (hu : (∃ i, u = .int i) ∨ (∃ b, u = .float b ∧ finiteBits b))
+    (hv : (∃ i, v = .int i) ∨ (∃ b, v = .float b ∧ finiteBits b)) :
     Erl.cmpNum u v = compare (erlNumKey u) (erlNumKey v) := by
   unfold Erl.cmpNum
   rcases hu with ⟨i, rfl⟩ | ⟨b, rfl, hb⟩ <;> rcases hv with ⟨j, rfl⟩ | ⟨c, rfl, hc⟩
@@ -75,13 +75,13 @@ theorem cmpNum_key (u v : Value) (hu : (∃ i, u = .int i) ∨ (∃ b, u = .floa
 
 /-- floats are finite (non-finite floats have no Erlang value) -/
 def numFin : Term → Bool
-  | .float b => finiteF b
+  | .float b => finiteBits b
   | _ => true
 
 theorem thenO_eq_right (o : Ordering) : Erl.thenO o .eq = o := by cases o <;> rfl
 
-theorem fcls_finite (b : Nat) (h : finiteF b) : fcls (f64 b) = 0 := by
-  simp only [finiteF, bne_iff_ne, ne_eq] at h
+theorem fcls_finite (b : Nat) (h : finiteBits b) : fcls (f64 b) = 0 := by
+  simp only [finiteBits, bne_iff_ne, ne_eq] at h
   have h1 : (f64 b).isNaN = false := by simp [F64.isNaN, h]
   have h2 : (f64 b).isInf = false := by simp [F64.isInf, h]
   simp [fcls, h1, h2]
@@ -93,14 +93,14 @@ theorem numKey_den (x : Term) (hn : isNum x) (hf : numFin x) : numKey x = (0, er
   · rfl
 
 theorem den_num (x : Term) (hn : isNum x) (hf : numFin x) :
-    (∃ i, den x = .int i) ∨ (∃ b, den x = .float b ∧ finiteF b) := by
+    (∃ i, den x = .int i) ∨ (∃ b, den x = .float b ∧ finiteBits b) := by
   cases x <;> simp [isNum] at hn
   · exact .inl ⟨_, rfl⟩
   · exact .inr ⟨_, rfl, by simpa [numFin] using hf⟩
   · exact .inl ⟨_, rfl⟩
 
-theorem cmpX_num (e : Bool) (u v : Value) (hu : (∃ i, u = .int i) ∨ (∃ b, u = .float b ∧ finiteF b))
-    (hv : (∃ i, v = .int i) ∨ (∃ b, v = .float b ∧ finiteF b)) (he : e = false) :
+theorem cmpX_num (e : Bool) (u v : Value) (hu : (∃ i, u = .int i) ∨ (∃ b, u = .float b ∧ finiteBits b))
+    (hv : (∃ i, v = .int i) ∨ (∃ b, v = .float b ∧ finiteBits b)) (he : e = false) :
     Erl.cmpX e u v = compare (erlNumKey u) (erlNumKey v) := by
   subst he
   have hk := cmpNum_key u v hu hv
@@ -354,9 +354,9 @@ theorem agrees_numbers (a b : Term) (ha : isNum a) (hb : isNum b) (oa : numOk a)
 
 /-- a finite float with a non-integer value: it ties with no integer -/
 def fracF (b : Nat) : Bool :=
-  finiteF b && decide ((f64 b).expo < 0) && ((f64 b).mant % 2 ^ (-(f64 b).expo).toNat != 0)
+  finiteBits b && decide ((f64 b).expo < 0) && ((f64 b).mant % 2 ^ (-(f64 b).expo).toNat != 0)
 
-theorem fracF_finite {b : Nat} (h : fracF b) : finiteF b := by
+theorem fracF_finite {b : Nat} (h : fracF b) : finiteBits b := by
   simp only [fracF, Bool.and_eq_true] at h; exact h.1.1
 
 theorem smVal_natAbs' (n : Bool) (v : Nat) : (smVal n v).natAbs = v := by
@@ -366,7 +366,7 @@ theorem smVal_natAbs' (n : Bool) (v : Nat) : (smVal n v).natAbs = v := by
 theorem key_int_frac (x : Int) (b : Nat) (h : fracF b) : x * (scaleK : Int) ≠ fkey (f64 b) := by
   simp only [fracF, Bool.and_eq_true, decide_eq_true_eq, bne_iff_ne, ne_eq] at h
   obtain ⟨⟨hf, he⟩, hm⟩ := h
-  have hfin : ¬ (f64 b).exp = 2047 := by simpa [finiteF] using hf
+  have hfin : ¬ (f64 b).exp = 2047 := by simpa [finiteBits] using hf
   intro heq
   unfold fkey at heq
   rw [if_neg hfin] at heq
